@@ -307,5 +307,6 @@ def _finish(data, j, password):
                 kind = "symlink"
         members.append({"name": name, "kind": kind, "data": content, "mtime": m["mtime"], "ctime": m["ctime"], "atime": m["atime"],
                         "attr": attr, "crc": (m["stream"][3] if m["stream"] else None), "size": (m["stream"][2] if m["stream"] else 0),
-                        "folder": (m["stream"][0] if m["stream"] else None)})
+                        "folder": (m["stream"][0] if m["stream"] else None), "offset": (m["stream"][1] if m["stream"] else None),
+                        "es": bool(m["es"])})
     return {"ok": True, "members": members, "warnings": warnings, "streams": streams, "encoded": j.get("encoded", False)}
